@@ -12,7 +12,7 @@ from lib import dbcsnap
 from lib import matrices as M
 
 PID = "C05"
-EXTRA_PROPS = ("Num", "C05b", "C05c", "C05d", "C05e", "C05f", "C05g", "C05h", "C05i", "C05j", "C05k", "C05l", "C05m")
+EXTRA_PROPS = ("Num", "C05b", "C05c", "C05d", "C05e", "C05f", "C05g", "C05h", "C05i", "C05j", "C05k", "C05l", "C05m", "C05n")
 RULE = ("case 'rt' = a generated matrix of DBC-expressible content (identifier names incl. names longer than 32 characters, ECU names "
         "of >= 2 characters, standard/extended ids, CAN FD and J1939 frames, simple and extended multiplexing, float signals, limits, "
         "start values inside the limits and on the raw grid, cycle times, value tables with quotes, comments over several lines with "
@@ -165,8 +165,17 @@ def attr_section(work):
                         one.append([k, written(v, work.signal_defines[k].type == "STRING")])
                 sa.append(one)
             frames.append({"attrs": fa, "sigs": sa})
+        # the value tables of the matrix: sorted by name, rows in the order of the dictionary, keys printed with str() (None when a key
+        # is negative or no integer: the writer model's tables have natural keys)
+        tables = []
+        for tname in sorted(work.value_tables):
+            rows = work.value_tables[tname]
+            if not all(isinstance(k, int) and not isinstance(k, bool) and k >= 0 for k in rows):
+                tables = None
+                break
+            tables.append({"name": tname, "entries": [[int(k), str(v)] for k, v in rows.items()]})
         sec = {"defs": defs, "defaults": [defaults[k] for k in sorted(defaults)], "gattrs": ga, "ecuattrs": ecus,
-               "ecunames": [e.name for e in work.ecus], "frames": frames}
+               "ecunames": [e.name for e in work.ecus], "frames": frames, "tables": tables}
         if any(ch in json.dumps(sec) for ch in ("\\n", "\\r")):
             return None
         return sec
@@ -287,6 +296,9 @@ def cases_of(desc, rng=None):
                 for x, y in zip(a["sigs"], b["sigs"]):
                     y["attrs"] = x
             cc["fattrs"] = True
+            if sec.get("tables") is not None:
+                # the value tables of the matrix: the whole file (Model/DbcFile.lean writeCoreH)
+                cc["tables"] = sec["tables"]
     yield {"op": "core", "c": cc}
     # the file as a whole against the reader model of Model/DbcFile.lean: as written, and damaged (lines inserted, dropped, cut)
     for variant in range(3):
@@ -498,7 +510,10 @@ def observe_core(c, r):
     if c.get("ecus") is not None:
         # the `BU_:` line with the empty line behind it, and the comments of the ECUs (Model/DbcFile.lean writeCoreE)
         k = next((i for i, l in enumerate(lines) if l.startswith("BU_:")), None)
-        out = (lines[k:k + 2] if k is not None else []) + out
+        head = lines[k:k + 2] if k is not None else []
+        if c.get("tables") is not None:
+            head += [l for l in lines if l.startswith("VAL_TABLE_ ")] + [""]
+        out = head + out
         kinds = ("CM_ BO_ ", "CM_ SG_ ", "CM_ BU_ ")
     out += [l for l in lines if l.startswith("BO_TX_BU_ ")]
     attr = []
@@ -827,6 +842,8 @@ def features(case, impl):
                 yield "core:matrix-attributes"
             if any(e.get("attrs") for e in c["ecus"]):
                 yield "core:ecu-attributes"
+        if c.get("tables") is not None:
+            yield "core:value-tables=%d" % min(len(c["tables"]), 4)
         if c.get("fattrs"):
             yield "core:frame-attributes=%d" % min(sum(len(f.get("attrs", [])) for f in c["frames"]) // 4 * 4, 20)
             yield "core:signal-attributes=%d" % min(sum(len(sg.get("attrs", [])) for f in c["frames"] for sg in f["sigs"]) // 8 * 8, 40)
